@@ -52,15 +52,15 @@ def rename (w : World) (a b : Nat) : World × Res :=
     else ({ (setDef (dropDef w a) b t) with hist := Hist.rename w.hist a b }, .ok)
 
 /-- client `Rename` as called with SPELLED names (Defs/Names.lean: several spellings denote one file; `a`, `b`
-    are the keys = resolved files). `srcLit` / `dstLit`: the spelling of the old / new name carries an extension
-    that `fileLocation` rewrites (`x.yml` -> `x.yaml`), which `dagStore.Find` takes literally, so `Find` does not
-    see the file the store reads / writes for that spelling (`= !findsOwnFile spelling`).
+    are the keys = resolved files). `srcLit` / `dstLit`: `dagStore.Find` does NOT reach the file the store reads /
+    writes for the spelling of the old / new name (`= !findsOwnFile spelling`).
+    The code as it is (after fix F50, 8b26466: `find` falls back to the `AddYamlExtension` file) has
+    `srcLit = dstLit = false` for every spelling (`C18_names_literal`); the driver evaluates exactly that.
+    `true` is the behaviour BEFORE F50, kept as the regression witness (a spelling `x.yml` was probed literally):
       1. `Find(oldID)` fails for such a source spelling (and for a missing source): refused, nothing changed;
       2. `dagStoreImpl.Rename`: same file -> `os.Rename(f, f)`, a no-op; another file that exists -> refused;
-      3. `Find(newID)` fails for such a target spelling AFTER the file has moved: an error is returned and the
-         history stays under the old name (finding `Frename-yml-target`, open; with the pending fix
-         `pending_fixes/Frename-yml-target-not-applied.diff` step 3 looks up the file the store wrote, `dstLit`
-         plays no role any more and the last-but-one branch disappears);
+      3. `Find(newID)` failed for such a target spelling AFTER the file had moved: an error was returned and the
+         history stayed under the old name (F50; the last-but-one branch);
       4. the history follows (`Hist.rename`; onto itself: nothing moves). -/
 def renameSp (w : World) (a b : Nat) (srcLit dstLit : Bool) : World × Res :=
   if srcLit then (w, .err)
